@@ -42,6 +42,11 @@ fn keyframe_sets() -> Vec<Vec<Kf>> {
         // extreme but finite values (the statement only asks for finite values)
         vec![kf(0.0, Some(-f32::MAX), Some(i32::MIN), None), kf(1.0, Some(f32::MAX), Some(2147483520), None)],
         vec![kf(0.25, Some(3.0e38), Some(-2147483520), Some(1)), kf(0.75, Some(-3.0e38), Some(2147483520), None)],
+        // many keyframes (index arithmetic beyond any small bound): 257 and 513 structured keyframes, and 300
+        // keyframes alternating between large finite values
+        crate::common::wide_spec(8, 0, Timing::new(1.0, 0.0, Rep::None, false)).kfs,
+        crate::common::wide_spec(9, 1, Timing::new(1.0, 0.0, Rep::None, false)).kfs,
+        (0..300).map(|i| kf(i as f32 / 299.0, Some(if i % 2 == 0 { 1.0e36 } else { -1.0e36 }), Some(if i % 3 == 0 { 2_000_000_000 } else { -2_000_000_000 }), if i % 7 == 0 { Some(1) } else { None })).collect(),
     ]
 }
 
@@ -52,6 +57,13 @@ fn times(c: &Timing) -> Vec<f32> {
         Rep::Times(n) => n as f64,
         Rep::Infinite => 3.0,
     };
+    // inside the first and second cycle (every 1/16, off the keyframe grid)
+    for j in 0..32 {
+        let b = c.delay as f64 + (j as f64 + 0.53) / 16.0 * c.cycle as f64;
+        if b <= f32::MAX as f64 {
+            v.push(b as f32);
+        }
+    }
     let mut js = vec![0.0, 0.5, 1.0, 1.5, 2.0, 3.0, 4.0, 5.0];
     js.extend([2.0 * reps, 2.0 * reps + 1.0, 2.0 * reps + 2.0, 2.0 * reps + 3.0]);
     for j in js {
@@ -308,7 +320,7 @@ pub fn run(run: Run) -> ! {
     cov.insert("traces_validated_against_impl".into(), json!(debug_compared));
     cov.insert("evaluations".into(), json!(acc.ops));
     cov.insert("distinct_nontrivial".into(), json!(items.len()));
-    cov.insert("rule".into(), json!("cycle in {MIN_POSITIVE,1e-30,1e-3,1,1e3,1e30,2e38,f32::MAX} x delay in {0,1e-30,1,1e30} x repeat in {None,Times 0,1,2^24,2^24+1,u32::MAX-1,u32::MAX,Infinite} x reverse, restricted to configurations whose total duration is <= f32::MAX (validity bound), x 8 keyframe sets (two with extreme finite values: +-f32::MAX, +-3e38, i32::MIN..2147483520); operations: build, duration, delay, cycle_duration, repeat, start_with, update (plain and after start_with) at {0, MIN_POSITIVE, delay, every phase boundary +-0,1,2 ulp incl. the last cycles, 1e30, f32::MAX}; the empty merged timeline (metadata finite); animator build, advance(dt) for dt in {0,2^-9,1,1e10,1e19,1e20,f32::MAX} each twice, is_ended, set_state; every operation under catch_unwind; oracle: no panic, finite values, values within the keyframe range, and identical result digests from a debug and a release build of the same harness; states = (configuration, keyframe set) cases, transitions = operations"));
+    cov.insert("rule".into(), json!("cycle in {MIN_POSITIVE,1e-30,1e-3,1,1e3,1e30,2e38,f32::MAX} x delay in {0,1e-30,1,1e30} x repeat in {None,Times 0,1,2^24,2^24+1,u32::MAX-1,u32::MAX,Infinite} x reverse, restricted to configurations whose total duration is <= f32::MAX (validity bound), x 11 keyframe sets (two with extreme finite values: +-f32::MAX, +-3e38, i32::MIN..2147483520; three with 257, 513 and 300 keyframes, the last alternating between +-1e36 / +-2e9); operations: build, duration, delay, cycle_duration, repeat, start_with, update (plain and after start_with) at {0, MIN_POSITIVE, delay, every phase boundary +-0,1,2 ulp incl. the last cycles, 32 points inside the first two cycles, 1e30, f32::MAX}; the empty merged timeline (metadata finite); animator build, advance(dt) for dt in {0,2^-9,1,1e10,1e19,1e20,f32::MAX} each twice, is_ended, set_state; every operation under catch_unwind; oracle: no panic, finite values, values within the keyframe range, and identical result digests from a debug and a release build of the same harness; states = (configuration, keyframe set) cases, transitions = operations"));
     cov.insert("exhaustive".into(), json!(true));
     cov.insert("debug_release_cases_compared".into(), json!(debug_compared));
     cov.insert("samples".into(), json!([{"timing": cfgs[cfgs.len() / 2].to_json(), "times": times(&cfgs[cfgs.len() / 2]).iter().map(|t| fj(*t)).collect::<Vec<_>>(), "advances": ADVANCES.iter().map(|t| fj(*t)).collect::<Vec<_>>()}]));
